@@ -278,7 +278,7 @@ def run_contract(rt, cc, func, args_by_name, call=None):
     if out["raised"]:
         ok = out["raised"] in cc.may_raise
         for exc, cl, (code, _) in rai:
-            if exc == out["raised"]:
+            if exc == out["raised"] or exc == "Exception":
                 ns2 = dict(rt.ns)
                 ns2.update(pre_ns)
                 try:
